@@ -105,7 +105,8 @@ class Constant(Attribute):
                         "The value of an integer constant must be an integer; got %s" % self._value
                     )
             elif isinstance(self._value, _expression.String):
-                as_bytes = self._value.native_value.encode("utf8")
+                # Lone surrogates (e.g., '\\ud800') cannot be encoded strictly; they are not ASCII characters either.
+                as_bytes = self._value.native_value.encode("utf8", errors="surrogatepass")
                 if len(as_bytes) != 1:
                     raise InvalidConstantValueError("A constant string must be exactly one ASCII character long")
 
